@@ -260,6 +260,9 @@ func runExec(p *path.Path, doc any, vars map[string]any, c *execCase) (res J) {
 			for k := range vars {
 				decoy[k] = "decoy"
 			}
+			for _, k := range append([]string{"allowed", "lo", "hi"}, varPool...) {
+				decoy[k] = "decoy" // a name the later map lacks stays undefined
+			}
 			decoyCopy := deepCopy(any(decoy))
 			opts = append(opts, exec.WithVars(exec.Vars(decoy)))
 			defer func() {
@@ -294,7 +297,12 @@ func runExec(p *path.Path, doc any, vars map[string]any, c *execCase) (res J) {
 		}
 	}
 	early := c.Kind == "async"
-	base := types.ContextWithTZ(context.Background(), zoneFor(c.ZoneID))
+	// context noise: the zone of the case overrides a decoy zone set on the parent context
+	parent := context.Background()
+	if c.ID%2 == 0 {
+		parent = types.ContextWithTZ(parent, time.FixedZone("decoy", -9*3600-30*60))
+	}
+	base := types.ContextWithTZ(parent, zoneFor(c.ZoneID))
 	cctx := newCountingCtx(base, k, kind)
 	cctx.early = early
 	var ctx context.Context = cctx
@@ -493,8 +501,109 @@ func spareOK(v any) bool {
 
 // runExecPure is runExec plus the purity check of C05: the document and the variables must encode
 // after the call to what they encoded to before it.
+// plainQuery runs Query with the options of the case on a plain (never done) context.
+func plainQuery(p *path.Path, doc any, vars map[string]any, c *execCase, withVars bool) (items []any, err error) {
+	defer func() {
+		if recover() != nil {
+			err = errors.New("panic")
+		}
+	}()
+	var opts []exec.Option
+	if vars != nil && withVars {
+		opts = append(opts, exec.WithVars(exec.Vars(vars)))
+	}
+	if c.Silent {
+		opts = append(opts, exec.WithSilent())
+	}
+	if c.UseTZ {
+		opts = append(opts, exec.WithTZ())
+	}
+	return p.Query(types.ContextWithTZ(context.Background(), zoneFor(c.ZoneID)), doc, opts...)
+}
+
+// plainBool runs Exists or Match likewise.
+func plainBool(p *path.Path, doc any, vars map[string]any, c *execCase, withVars bool) (res string) {
+	defer func() {
+		if recover() != nil {
+			res = "panic"
+		}
+	}()
+	var opts []exec.Option
+	if vars != nil && withVars {
+		opts = append(opts, exec.WithVars(exec.Vars(vars)))
+	}
+	if c.Silent {
+		opts = append(opts, exec.WithSilent())
+	}
+	if c.UseTZ {
+		opts = append(opts, exec.WithTZ())
+	}
+	ctx := types.ContextWithTZ(context.Background(), zoneFor(c.ZoneID))
+	var b bool
+	var err error
+	switch c.Entry {
+	case "exists":
+		b, err = p.Exists(ctx, doc, opts...)
+	case "match":
+		b, err = p.Match(ctx, doc, opts...)
+	default:
+		b, err = p.ExistsOrMatch(ctx, doc, opts...)
+	}
+	return fmt.Sprint(b, " ", classify(err, nil))
+}
+
+// earlier is the raw result of the previous Query case of this process with its encoding at the
+// time it was returned: a later call must not change it (pooled or shared result buffers).
+var earlier struct {
+	items []any
+	enc   []byte
+}
+
+type clobber struct{}
+
 func runExecPure(p *path.Path, doc any, vars map[string]any, c *execCase, docB, varsB []byte) J {
+	var before string
+	stateProbe := c.Cancel == nil && vars != nil && (c.Entry == "exists" || c.Entry == "match" || c.Entry == "eom")
+	if stateProbe {
+		before = plainBool(p, doc, vars, c, false)
+	}
 	res := runExec(p, doc, vars, c)
+	if stateProbe {
+		// C06/C19: a call without WithVars answers the same before and after a call with WithVars
+		if after := plainBool(p, doc, vars, c, false); after != before {
+			return J{"out": "state-left-behind", "what": "a call without WithVars answers differently after a call with WithVars: " + before + " / " + after}
+		}
+	}
+	if c.Cancel == nil && c.Entry == "query" {
+		if earlier.items != nil && !bytes.Equal(earlier.enc, marshal(encItem(maskIDs(any(earlier.items))))) {
+			earlier.items = nil
+			return J{"out": "earlier-result-changed", "what": "the slice returned by an earlier Query changed during a later call"}
+		}
+		// C05/C19: the returned slice belongs to the caller: writing to it changes neither the
+		// inputs nor another result
+		if r1, e1 := plainQuery(p, doc, vars, c, true); e1 == nil && len(r1) > 0 {
+			enc1 := marshal(encItem(maskIDs(any(r1))))
+			keep := append([]any(nil), r1...)
+			if r2, e2 := plainQuery(p, doc, vars, c, true); e2 == nil {
+				for i := range r2 {
+					r2[i] = clobber{}
+				}
+				r2 = append(r2, clobber{}, clobber{})
+				_ = r2
+				for i := range r1 {
+					if _, bad := r1[i].(clobber); bad {
+						return J{"out": "results-share-memory", "what": "writing to one returned slice changed another"}
+					}
+				}
+			}
+			if !bytes.Equal(docB, marshal(encItem(doc))) || !bytes.Equal(varsB, marshal(encVars(vars))) || !spareOK(doc) || !spareOK(any(vars)) {
+				return J{"out": "result-aliases-input", "what": "writing to the returned slice changed the document or the variables"}
+			}
+			earlier.items, earlier.enc = keep, enc1
+			_ = keep
+			earlier.items = r1
+		}
+	}
 	if c.Cancel == nil && (c.Entry == "query" || c.Entry == "first") && strings.Contains(c.Path, "keyvalue") && !kvBelowGenerated(p.AST.Root()) {
 		// C16: ids are stable over repeated executions (heap addresses of the document do not move)
 		a, b := rawKVIDs(p, doc, vars, c), rawKVIDs(p, doc, vars, c)
@@ -532,9 +641,53 @@ func runExecPure(p *path.Path, doc any, vars map[string]any, c *execCase, docB, 
 			}()
 			return p.Query(bctx, doc, opts...)
 		}()
+		// a result may be the static array itself ($ selected): encode before the storage is wiped
+		var b1, b2 []byte
+		if e1 == nil && e2 == nil {
+			b1, b2 = marshal(encItem(zeroIDs(any(i1)))), marshal(encItem(zeroIDs(any(i2))))
+		}
 		clear(staticBack[:])
-		if (e1 == nil) != (e2 == nil) || (e1 == nil && !bytes.Equal(marshal(encItem(zeroIDs(any(i1)))), marshal(encItem(zeroIDs(any(i2)))))) {
+		if (e1 == nil) != (e2 == nil) || !bytes.Equal(b1, b2) {
 			return J{"out": "keyvalue-depends-on-document-location"}
+		}
+	}
+	if c.Cancel == nil && c.Entry == "query" && strings.Contains(c.Path, "keyvalue") && !strings.Contains(c.Path, ".id") && !kvBelowGenerated(p.AST.Root()) {
+		// C16/C05: the caller may edit an object between two calls; the second call sees the object as it is
+		// then, exactly as a fresh copy of it would be seen
+		var maps []map[string]any
+		var walk func(v any)
+		walk = func(v any) {
+			switch v := v.(type) {
+			case []any:
+				for _, x := range v {
+					walk(x)
+				}
+			case map[string]any:
+				if _, has := v["k_added"]; !has && v != nil && len(maps) < 64 {
+					maps = append(maps, v)
+				}
+				for _, x := range v {
+					walk(x)
+				}
+			}
+		}
+		walk(doc)
+		if len(maps) > 0 {
+			for _, m := range maps {
+				m["k_added"] = int64(7)
+			}
+			i1, e1 := plainQuery(p, doc, vars, c, true)
+			i2, e2 := plainQuery(p, deepCopy(doc), vars, c, true)
+			var b1, b2 []byte // results share the document's values: encode before the edit is undone
+			if e1 == nil && e2 == nil {
+				b1, b2 = marshal(encItem(zeroIDs(any(i1)))), marshal(encItem(zeroIDs(any(i2))))
+			}
+			for _, m := range maps {
+				delete(m, "k_added")
+			}
+			if (e1 == nil) != (e2 == nil) || !bytes.Equal(b1, b2) {
+				return J{"out": "stale-view-of-an-edited-object"}
+			}
 		}
 	}
 	if !bytes.Equal(docB, marshal(encItem(doc))) {
@@ -937,13 +1090,34 @@ func execStream(args []string) int {
 			ow.Write(marshal(res))
 			ow.WriteByte('\n')
 		}
-		if *cancel {
-			for _, entry := range []string{"query", "first", "exists", "match"} {
-				for _, silent := range []bool{false, true} {
-					polls := countPolls(pp, doc, vars, entry, silent)
-					if polls < 0 {
+		if *cancel && *prof == "grid-big" {
+			// big documents: the polls of a long loop are sampled (first, middle, the last one, one past it)
+			for i, es := range [][2]any{{"query", false}, {"exists", true}, {"first", grp%2 == 0}, {"match", grp%2 == 1}} {
+				if i >= 2 && (grp+i)%2 == 0 {
+					continue
+				}
+				polls := countPolls(pp, doc, vars, es[0].(string), es[1].(bool))
+				if polls < 0 {
+					continue
+				}
+				seen := map[int]bool{}
+				for j, k := range []int{0, polls / 2, polls - 1, polls} {
+					if k < 0 || seen[k] {
 						continue
 					}
+					seen[k] = true
+					kk := k
+					emit(es[0].(string), es[1].(bool), &kk, []string{"canceled", "deadline", "cause", "async"}[(j+grp)%4])
+				}
+			}
+		} else if *cancel {
+			for _, entry := range []string{"query", "first", "exists", "match"} {
+				for _, silent := range []bool{false, true} {
+					all := countPolls(pp, doc, vars, entry, silent)
+					if all < 0 {
+						continue
+					}
+					polls := all
 					if polls > 40 {
 						polls = 40
 					}
@@ -952,12 +1126,31 @@ func execStream(args []string) int {
 						kind := []string{"canceled", "deadline", "cause", "async"}[(k+grp)%4]
 						emit(entry, silent, &kk, kind)
 					}
+					if all > 40 {
+						// a long run: also its middle, its last poll and one past it
+						for j, k := range []int{all / 2, all - 1, all} {
+							if k > 40 {
+								kk := k
+								emit(entry, silent, &kk, []string{"canceled", "deadline", "cause", "async"}[(j+grp)%4])
+							}
+						}
+					}
 				}
 			}
 		} else {
-			for _, entry := range []string{"query", "first", "exists", "match", "eom"} {
-				for _, silent := range []bool{false, true} {
-					emit(entry, silent, nil, "")
+			if *prof == "grid-big" {
+				// big documents: four of the ten entry/option combinations, rotating
+				combos := [][2]any{{"query", false}, {"exists", grp%2 == 0}, {"first", true}, {"match", grp%2 == 1}, {"query", true}}
+				for i := 0; i < 3; i++ {
+					cb := combos[(grp+i)%len(combos)]
+					emit(cb[0].(string), cb[1].(bool), nil, "")
+				}
+				emit("query", grp%3 == 0, nil, "")
+			} else {
+				for _, entry := range []string{"query", "first", "exists", "match", "eom"} {
+					for _, silent := range []bool{false, true} {
+						emit(entry, silent, nil, "")
+					}
 				}
 			}
 		}
